@@ -138,7 +138,15 @@ def _is_variant(body, err_nid, name):
     return v.k == "agg" and (v.extra or "").endswith("FeoxError::" + name)
 
 
+def check_gate(ctx):
+    # "an accepted write never lands on top of a state carrying an equal or newer timestamp": the last-writer-wins gate is
+    # evaluated on the record under the bucket guard (shared with C01.gate)
+    from rules import C01
+    C01.check_gate(ctx, "C07.gate")
+
+
 def check(ctx):
+    check_gate(ctx)
     check_identity(ctx)
     check_under_guard(ctx)
     check_vacant(ctx)
